@@ -297,7 +297,9 @@ def run(ctx, rep):
                 good = a is T.payload(T.call("[T]::get", ("u8", "ops::Range<usize>"), [p1, rng]), "Some")
             else:
                 src = an.call_site_of(a) if a.op == "payload" and a.args[1] == "Ok" else None
-                good = (src is not None and src.callee_qual == reader and src.args[1] is T.const("usize", 0) and src.args[2] is T.const("usize", 16))
+                from ..prov import read_bytes_bounds as _rbb
+                bnd_ = _rbb(src.args) if (src is not None and src.callee_qual == reader) else None
+                good = (bnd_ is not None and bnd_[0] is T.const("usize", 0) and bnd_[1] is T.const("usize", 16))
         rep.require(good, "feed", q, w, "parse_ident::<E>(file bytes [0,16))",
                     "%s does not pass exactly bytes [0,16) of the file to parse_ident::<E> (args: %s)" % (q, [pp(x) for c in pcs for x in c.args]))
         # parse_tail receives that ident unchanged
